@@ -44,7 +44,9 @@ def run(ctx):
                 "with extensions + trailers | until close; 100-continue prefix, HEAD, 204/304; pipelined "
                 "leftover) x splits: every split into <= 3 pieces of short messages + every proper prefix of "
                 "them in one receive (intermediate parser configuration), random splits (<= 6 "
-                "pieces) of longer ones; plus python-primitive cases (int(), strip, split, lower) exhaustive "
+                "pieces) of longer ones; REUSED parsers (makeParser() after each message on the same object) over "
+                "streams of 2-3 messages of mixed framing under every 2-piece split, 3-piece splits around the "
+                "message boundaries and random splits; plus python-primitive cases (int(), strip, split, lower) exhaustive "
                 "on short strings.  non-trivial = >= 2 pieces; distinct by (kind, pieces)")
     ctx.assumptions = [
         "content-type is never text/event-stream (evented bodies are handed to EventSource: C33)",
@@ -58,6 +60,12 @@ def run(ctx):
     res = ctx.coq_build("C29/Props.v")
     ctx.extra["t_build_s"] = round(time.time() - t0, 1)
     t0 = time.time()
+    # fail-closed AST obligation: what a reused parser reads / reports is reset per message
+    import resetscan
+    reset_problems = resetscan.scan_repo(ctx.repo)
+    for pr in reset_problems[:4]:
+        ctx.tie_broken("translator", "reused parser starts from the initial state (resetscan O1/O2)", pr)
+    ctx.extra["reset_obligation_problems"] = reset_problems
     rng = ctx.rng
     cases, metas = [], []
     defs = []
@@ -129,6 +137,56 @@ def run(ctx):
         add(m, H.random_split(rng, m.data, 6), "random")
         if rng.random() < 0.2:
             add(m, [m.data], "whole")
+    # (b2) REUSED parsers: one Requestant / Respondent, makeParser() after each complete message,
+    #      streams of 2-3 messages of mixed framing: every 2-piece split, every 3-piece split whose
+    #      cuts lie within 6 bytes of a message boundary, plus random splits
+    scases, smetas = [], []
+    spool, sdpool = H.LitPool("sobs"), H.LitPool("sdat")
+    nseq = 0
+    while nseq < ctx.n(10, 80):
+        kind = rng.choice(["req", "resp"])
+        ms = []
+        for _k in range(rng.choice([2, 2, 3])):
+            m = gen_msg(rng, kind, small=True)
+            if m.close or m.headreq or m.left:
+                m = None
+            if m is None:
+                break
+            ms.append(m)
+        if len(ms) < 2 or sum(len(m.data) for m in ms) > 260:
+            continue
+        for m in ms:
+            m.data = m.data[:len(m.data) - len(m.left)] if m.left else m.data
+        nseq += 1
+        data = b"".join(m.data for m in ms)
+        n = len(data)
+        bounds, acc = [], 0
+        for m in ms[:-1]:
+            acc += len(m.data)
+            bounds.append(acc)
+        near = sorted(set(c for b0 in bounds for c in range(max(1, b0 - 6), min(n, b0 + 7))))
+        sps = [[data]] + [[data[:i], data[i:]] for i in range(1, n)]
+        sps += [[data[:a0], data[a0:b1], data[b1:]] for a0 in near for b1 in near if a0 < b1]
+        sps += [H.random_split(rng, data, 6) for _ in range(5)]
+        exp = [expected(m) for m in ms]
+        for pieces in sps:
+            flat, views, left = H.sess_impl(kind, pieces)
+            ctx.case({"kind": kind, "reused_parser": True, "pieces": [p.decode("latin-1") for p in pieces],
+                      "n_messages": len(views)}, nontrivial=True,
+                     kind="reused/%s/%s" % (kind, "+".join(m.framing for m in ms)))
+            expr = "sess_case2 (mkcfg 65536 100 %s) %s false %s %s" % (
+                H.zll(H.bad_urls(data)), "true" if kind == "resp" else "false", sdpool.ref(data),
+                H.zl([len(p) for p in pieces[:-1]]))
+            scases.append((expr, spool.ref(flat)))
+            smetas.append((kind, ms, pieces, views, left, exp))
+    sbad = ctx.coq_cases(H.HEADER + sdpool.defs() + spool.defs(), "beq", scases, name="c29sess", shard=1500)
+    for i in sbad[:4]:
+        kind, ms, pieces, views, left, exp = smetas[i]
+        ctx.tie_broken("correspondence", "C29 reused-parser model vs %s + makeParser()" % (
+            "Requestant" if kind == "req" else "Respondent"),
+                       "pieces=%r impl_messages=%r left=%r" % (pieces, views, left))
+    ctx.extra["mismatches_reused"] = len(sbad)
+
     # (c) python primitives used by the model
     prim = []
     alpha = "01af FxX_+-g\x1c\xa0"
@@ -173,7 +231,7 @@ def run(ctx):
     for i in bads[:3]:
         ctx.tie_broken("correspondence", "string primitive model vs python", "%s expected %s" % sprim[i])
     ctx.extra["t_coq_cases_s"] = round(time.time() - t0, 1)
-    ctx.extra["mismatches"] = len(bad) + len(badp) + len(bads)
+    ctx.extra["mismatches"] = len(bad) + len(badp) + len(bads) + len(sbad)
     ctx.exhaustive = False
 
     def search():
@@ -192,6 +250,39 @@ def run(ctx):
                                "close_after": m.close, "head_request": m.headreq,
                                "observed": view, "expected": expected(m), "why": why,
                                "contradicts": "C29.Props.http_split_independent / http_parse_serialize"})
+        for kind, ms, pieces, views, left, exp in smetas:
+            why = None
+            if views and "escaped" in views[0]:
+                why = "parser raised %s" % views[0]["escaped"]
+            elif len(views) != len(exp):
+                why = "%d messages parsed from a stream of %d" % (len(views), len(exp))
+            elif left:
+                why = "bytes %r left over after the last message" % left
+            else:
+                for j, (v, e) in enumerate(zip(views, exp)):
+                    if v["body"] != e["body"]:
+                        why = "message %d has body %r, its content is %r" % (j, v["body"], e["body"])
+                    elif [(k, x) for k, x in v["headers"]] != [tuple(h) for h in e["headers"]]:
+                        why = "message %d has headers %r, its content is %r" % (j, v["headers"], e["headers"])
+                    elif v["trails"] != [tuple(t) for t in e["trails"]]:
+                        why = "message %d has trailers %r, its content is %r" % (j, v["trails"], e["trails"])
+                    elif v["parms"] != [tuple(t) for t in e["parms"]]:
+                        why = "message %d has chunk extensions %r, its content is %r" % (j, v["parms"], e["parms"])
+                    if why:
+                        break
+            if why:
+                stale = "chunk extensions" in why or "trailers" in why
+                key = "http-reused-parser-stale-parms-trails" if stale else "http-reused-parser-state-leak"
+                # a finding already listed as open must never hide a different one: rank it last
+                known_open = any(f.get("status") == "open" and f.get("key") == key for f in ctx.known())
+                size = sum(len(m.data) for m in ms) * 10 + len(pieces) + (10 ** 7 if known_open else 0)
+                if best is None or size < best[0]:
+                    best = (size, {"key": key,
+                                   "parser": ("serving.Requestant" if kind == "req" else "clienting.Respondent")
+                                             + " reused with makeParser() after each message",
+                                   "pieces": [p.decode("latin-1") for p in pieces], "why": why,
+                                   "observed_messages": views, "expected_messages": exp,
+                                   "contradicts": "C29.Props.session_message_by_message / session_split_independent"})
         return best[1] if best else None
 
     ctx.settle(search)
